@@ -7,12 +7,16 @@ Output: "#case" lines are echoed; one model line per operation.
 import LA.Drive.Lnk
 import LA.Drive.ReadAhead
 import LA.Drive.Codec
+import LA.Drive.CodecOracle
 open LA
 
 def engines : List (String × Engine) := [
   ("lnk", LA.Lnk.engine),
   ("rda", LA.RA.engine),
-  ("codec", LA.Codec.engine)
+  ("codec", LA.Codec.engine),
+  ("codecp", LA.Codec.engine),
+  ("codec.c10", LA.Codec.oracle10),
+  ("codec.c02", LA.Codec.oracle02)
 ]
 
 partial def loop (e : Engine) (h : IO.FS.Stream) (out : IO.FS.Stream) (s : e.σ) : IO Unit := do
